@@ -35,15 +35,25 @@ ASSUMPTIONS = [
 BOUNDS = {'quick': {'generations': 2}, 'thorough': {'generations': 3}}
 
 
+PATTERN = (0, 1, 1, 0)     # call k answers outcome (0) or its opposite (1)
+
+
 class FixedRandom:
-    """Stands in for the ``random`` module inside vivarium.core.registry."""
+    """Stands in for the ``random`` module inside vivarium.core.registry.
+    Successive draws differ (outcome, opposite, opposite, outcome, ...), so
+    a divider that is consulted once per daughter instead of once per
+    division hands out shares that do not belong together."""
     def __init__(self, outcome):
         self.outcome = outcome
         self.calls = 0
 
-    def choice(self, seq):
+    def answer(self):
+        flip = PATTERN[self.calls % len(PATTERN)]
         self.calls += 1
-        return seq[0] if self.outcome else seq[1]
+        return (not self.outcome) if flip else bool(self.outcome)
+
+    def choice(self, seq):
+        return seq[0] if self.answer() else seq[1]
 
 
 def user_divider(value, **kw):
@@ -249,8 +259,14 @@ def run_case(job, acc):
     saved_binom = np.random.binomial
     fixed = FixedRandom(bool(outcome))
     registry.random = fixed
+    binom_calls = [0]
+
+    def fake_binomial(n, p):
+        flip = PATTERN[binom_calls[0] % len(PATTERN)]
+        binom_calls[0] += 1
+        return (n - outcome) if flip else outcome
     if case['divider'] == 'binomial':
-        np.random.binomial = lambda n, p: outcome
+        np.random.binomial = fake_binomial
     try:
         ex = worlds.execute(spec)
     finally:
@@ -294,10 +310,19 @@ def run_case(job, acc):
         V('C11.structure', 'wrong-compartments-after-division',
           f'agents hold {sorted(agents)}, expected {sorted(want_keys)}')
         return
-    # the value the last mother held: follow daughter 0 down
+    # the values the last mother held just before she divided (from the
+    # snapshot taken at the previous emit)
+    rows_ = worlds.history_rows(ex)
+    prev = rows_[-2][2] if len(rows_) >= 2 else None
     val = mk_value(case['value'])
-    for g in range(generations - 1):
-        val = expected_pair(case, val, outcome)[0]
+    ext_val = val
+    if generations > 1 and prev is not None:
+        try:
+            mnode = get(prev, home + (last_mother,))
+            val = mnode['store']['v']
+            ext_val = mnode['ext']['v']
+        except Exception:  # noqa
+            pass
     got0 = agents[d0]['store']['v']
     got1 = agents[d1]['store']['v']
     if expect == 'partition':
@@ -313,7 +338,23 @@ def run_case(job, acc):
               f'mother {val} -> {got0} / {got1}')
     else:
         w0, w1 = expected_pair(case, val, outcome)
-        if not (same(got0, w0) and same(got1, w1)):
+        alt = None
+        if len(case['outcomes']) > 1 and generations == 1:
+            # two variables (store/v, ext/v) are divided: one gets the
+            # first draw, the other the second (opposite) draw
+            opp = (not outcome) if isinstance(outcome, bool) else (
+                val - outcome)
+            alt = expected_pair(case, val, opp)
+        ok_v = same(got0, w0) and same(got1, w1)
+        ok_alt = alt is not None and same(got0, alt[0]) and same(
+            got1, alt[1])
+        if generations > 1 and len(case['outcomes']) > 1:
+            # later generations: only conservation is compared
+            try:
+                ok_v = same(got0 + got1, val)
+            except Exception:  # noqa
+                ok_v = False
+        if not (ok_v or ok_alt):
             fp = case['label'].split(':')[0]
             conserve = ''
             try:
@@ -332,16 +373,26 @@ def run_case(job, acc):
     if expect == 'partition':
         ok = (isinstance(e0, dict) and isinstance(e1, dict)
               and not (set(e0) & set(e1))
-              and dict(e0, **e1) == val)
+              and dict(e0, **e1) == ext_val)
         if not ok:
             V('C11.value', 'glob-declared-variable-loses-its-share',
               f'ext/v (declared by an outside glob port): mother {val} -> '
               f'{e0} / {e1}')
     else:
-        w0, w1 = expected_pair(case, val, outcome)
+        w0, w1 = expected_pair(case, ext_val, outcome)
         if case['divider'] == 'null':
             w0 = w1 = alt_default(mk_value(case['value']))
-        if not (same(e0, w0) and same(e1, w1)):
+        ok_e = same(e0, w0) and same(e1, w1)
+        if len(case['outcomes']) > 1:
+            try:
+                ok_e = same(e0 + e1, ext_val)  # the other draw: conserved
+            except Exception:  # noqa
+                ok_e = False
+            # and the two variables used different draws of one division
+            if generations == 1 and ok_e and same(e0, got0) and not same(
+                    e0, e1) and not same(got0, got1):
+                ok_e = False
+        if not ok_e:
             V('C11.value', 'glob-declared-variable-loses-its-share',
               f'{case["label"]} outcome {outcome}: ext/v (declared only by '
               f'an outside glob port) mother {val!r} -> {e0!r} / {e1!r}, '
